@@ -581,6 +581,16 @@ class System:
             if not isinstance(comp, PMux):
                 raise ValueError("PMux cannot be changed to other type!")
 
+        # there can only be one pmux
+        if comp._component_type == _ComponentTypes.PMUX:
+            for key in self._g.attrs["nodes"]:
+                if (
+                    self._g.attrs["nodes"][key] != eidx
+                    and self._g[self._g.attrs["nodes"][key]]._component_type
+                    == _ComponentTypes.PMUX
+                ):
+                    raise ValueError("a system can only have one PMux")
+
         # check that parent allows component type as child
         parents = self._get_parents()
         if parents[eidx] != -1:
@@ -588,6 +598,16 @@ class System:
                 raise ValueError(
                     "Parent does not allow child of type {}!".format(
                         comp._component_type.name
+                    )
+                )
+            if len(parents[eidx]) > 1 and comp._component_type != _ComponentTypes.PMUX:
+                raise ValueError("only PMux component can have multiple inputs!")
+        # check that the new component allows the existing childs
+        for c in self._g.successor_indices(eidx):
+            if not self._g[c]._component_type in comp._child_types:
+                raise ValueError(
+                    "Component of type {} does not allow child of type {}!".format(
+                        comp._component_type.name, self._g[c]._component_type.name
                     )
                 )
         self._g[eidx] = comp
